@@ -2,16 +2,17 @@ From OPF Require Import Proofs.HeapPrelude Base.Lists Model.Heap Model.Sup Spec.
 From OPF Require Import Proofs.FitBase Proofs.FitSup Proofs.Semi Proofs.FitExample.
 
 (* The competition loop of SemiSupervisedOPF.fit ([semi = true]: it also writes
-   label[q] := predicted_label[q] on every conquest) from an arbitrary node table. *)
+   label[q] := predicted_label[q] when an unlabeled node q >= nl is conquered) from an
+   arbitrary node table. *)
 Theorem C15_compete_semi_optimum_path_forest :
-  forall (zero top : Z) (n : nat) (w : nat -> nat -> Z) (nd0 : @nodes Z),
+  forall (zero top : Z) (nl n : nat) (w : nat -> nat -> Z) (nd0 : @nodes Z),
     let isproto q := nth q (n_status nd0) false = true in
     (zero < top)%Z ->
     (forall p q, (p < n)%nat -> (q < n)%nat -> p <> q -> (zero <= w p q < top)%Z) ->
     length (n_cost nd0) = n -> length (n_pred nd0) = n -> length (n_label nd0) = n ->
     length (n_plabel nd0) = n -> n_order nd0 = [] ->
     (exists s, (s < n)%nat /\ isproto s) ->
-    let nd := compete Z.ltb zero top true n w nd0 in
+    let nd := compete Z.ltb zero top true nl n w nd0 in
     let cost q := nth q (n_cost nd) zero in
     let pred q := nth q (n_pred nd) None in
     let plabel q := nth q (n_plabel nd) 0%nat in
@@ -26,15 +27,18 @@ Theorem C15_compete_semi_optimum_path_forest :
     (forall q, (q < n)%nat -> ~ isproto q ->
        exists p, pred q = Some p /\ (p < n)%nat /\ p <> q /\
          cost q = Z.max (cost p) (w p q) /\ plabel q = plabel p /\ before (n_order nd) p q) /\
-    (* every node carries the ORIGINAL label of the prototype at the root of its path *)
+    (* every node is assigned the ORIGINAL label of the prototype at the root of its path;
+       for an unlabeled node this also becomes its label *)
     (forall q, (q < n)%nat ->
        exists r k, (r < n)%nat /\ isproto r /\ reaches pred q r k /\ pred r = None /\
          (k < n)%nat /\ plabel q = nth r (n_label nd0) 0%nat /\
-         label q = nth r (n_label nd0) 0%nat) /\
+         ((nl <= q)%nat -> label q = nth r (n_label nd0) 0%nat)) /\
     (forall q s pi, (q < n)%nat -> (s < n)%nat -> isproto s -> path_from_to n s q pi ->
        (cost q <= pathmax w zero pi)%Z) /\
     (forall q, (q < n)%nat -> exists s pi, (s < n)%nat /\ isproto s /\ path_from_to n s q pi /\
        pathmax w zero pi = cost q) /\
+    (* labeled nodes keep their original label *)
+    (forall q, (q < n)%nat -> (q < nl)%nat -> label q = nth q (n_label nd0) 0%nat) /\
     n_status nd = n_status nd0.
 Proof. exact compete_true_opf. Qed.
 
@@ -64,39 +68,28 @@ Theorem C15_semi_optimal :
     (forall q, (q < n)%nat -> ~ isproto q ->
        exists p, pred q = Some p /\ (p < n)%nat /\ p <> q /\
          cost q = Z.max (cost p) (w p q) /\ plabel q = plabel p /\ before (n_order nd) p q) /\
-    (* it carries the true label of the prototype at the root of its path *)
+    (* it is assigned the true label of the prototype at the root of its path; for an
+       unlabeled sample this also becomes its label *)
     (forall q, (q < n)%nat ->
        exists r k, isproto r /\ reaches pred q r k /\ pred r = None /\ (k < n)%nat /\
-         plabel q = nth r labels 0%nat /\ label q = nth r labels 0%nat) /\
+         plabel q = nth r labels 0%nat /\ ((nl <= q)%nat -> label q = nth r labels 0%nat)) /\
     (* its cost is the optimum max-arc path cost from the prototypes through all samples *)
     (forall q s pi, (q < n)%nat -> isproto s -> path_from_to n s q pi ->
        (cost q <= pathmax w zero pi)%Z) /\
     (forall q, (q < n)%nat -> exists s pi, isproto s /\ path_from_to n s q pi /\
        pathmax w zero pi = cost q) /\
+    (* labeled samples keep their true label *)
+    (forall q, (q < nl)%nat -> label q = nth q labels 0%nat) /\
     n_status nd = n_status fp ++ repeat false nu.
 Proof. exact semi_fit_opf. Qed.
 
-(* With an empty unlabeled set, semi-supervised and supervised training agree on every node
-   field except [n_label] (any cost type W, any comparison). *)
+(* With an empty unlabeled set the result is identical to supervised training on the labeled
+   set: the whole node table, for any cost type W and any comparison. *)
 Theorem C15_semi_empty_is_supervised :
   forall (W : Type) (ltb : W -> W -> bool) (zero top : W) (labels : list nat)
          (w : nat -> nat -> W),
-    let a := semi_fit ltb zero top labels 0 w in
-    let b := sup_fit ltb zero top labels w in
-    n_cost a = n_cost b /\ n_pred a = n_pred b /\ n_plabel a = n_plabel b /\
-    n_status a = n_status b /\ n_relevant a = n_relevant b /\ n_order a = n_order b.
+    semi_fit ltb zero top labels 0 w = sup_fit ltb zero top labels w.
 Proof. exact (@semi_empty_is_supervised). Qed.
-
-(* ... but NOT on [n_label]: "identical to supervised training" fails for the label field when
-   tied weights let a training sample be conquered by a prototype of another class. *)
-Theorem C15_semi_empty_label_refuted :
-  exists (labels : list nat) (w : nat -> nat -> Z),
-    (forall p q, w p q = w q p) /\
-    (forall p q, (p < length labels)%nat -> (q < length labels)%nat -> p <> q ->
-       (0 <= w p q < 1000)%Z) /\
-    n_label (sup_fit Z.ltb 0%Z 1000%Z labels w) = labels /\
-    n_label (semi_fit Z.ltb 0%Z 1000%Z labels 0 w) <> labels.
-Proof. exact semi_empty_label_differs. Qed.
 
 (* non-vacuity: 3 labeled + 2 unlabeled samples with tied weights *)
 Theorem C15_example_premises :
